@@ -37,6 +37,12 @@ def verify_function(repo, registry, qualname, only_variant=None):
     rep = FunctionReport(qualname)
     m, fnode, cls = repo.find_function(qualname)
     rep.source_lines = (m.path, fnode.lineno, fnode.end_lineno)
+    # the generator reads the function BODY: a decorator could change what a call does (caching, wrapping).  Only decorators
+    # that leave the body's meaning alone are accepted.
+    for d in fnode.decorator_list:
+        dn = ast.unparse(d.func if isinstance(d, ast.Call) else d)
+        if dn.split(".")[-1] not in ("staticmethod", "classmethod", "abstractmethod", "property"):
+            raise Unsupported(f"{qualname}: decorator @{dn} is not modelled (the verified text would not be the code that runs)")
     ptypes = c.param_types()
     gtypes = [(f"global:{g}", c.type_of(tx)) for g, tx in c.globals_used]
     ptypes = ptypes + gtypes
